@@ -814,16 +814,22 @@ Definition bout_eqb (a b : bout) : bool :=
 Inductive ccase :=
 | CBuild (i : binput) (out : bout) (tr : list tobs)                   (* NewBuilder ... Build *)
 | CLeave (c : cluster) (r : region) (out : bout) (tr : list tobs)     (* CreateLeaveJointStateOperator *)
-| CProbe (r : region) (ss : list step) (tr : list tobs).              (* arbitrary steps on an arbitrary region: step.go only *)
+| CProbe (r : region) (ss : list step) (tr : list tobs)               (* arbitrary steps on an arbitrary region: step.go only *)
+| CPend (r : region) (pend : list Z) (ss : list step) (fins : list bool). (* IsFinish of each step on r with pending peers *)
 
-Definition case_region (c : ccase) : region := match c with CBuild i _ _ => i_region i | CLeave _ r _ _ | CProbe r _ _ => r end.
-Definition case_out (c : ccase) : bout := match c with CBuild _ o _ | CLeave _ _ o _ => o | CProbe _ ss _ => Built ss false false end.
-Definition case_trace (c : ccase) : list tobs := match c with CBuild _ _ t | CLeave _ _ _ t | CProbe _ _ t => t end.
+Definition case_region (c : ccase) : region := match c with CBuild i _ _ => i_region i | CLeave _ r _ _ | CProbe r _ _ | CPend r _ _ _ => r end.
+Definition case_out (c : ccase) : bout := match c with CBuild _ o _ | CLeave _ _ o _ => o | CProbe _ ss _ => Built ss false false | CPend _ _ _ _ => BuildErr end.
+Definition case_trace (c : ccase) : list tobs := match c with CBuild _ _ t | CLeave _ _ _ t | CProbe _ _ t => t | CPend _ _ _ _ => [] end.
 Definition model_out (c : ccase) : bout :=
-  match c with CBuild i _ _ => build i | CLeave cl r _ _ => leave_joint_op cl r | CProbe _ ss _ => Built ss false false end.
+  match c with CBuild i _ _ => build i | CLeave cl r _ _ => leave_joint_op cl r | CProbe _ ss _ => Built ss false false | CPend _ _ _ _ => BuildErr end.
 
 (* None = model and implementation agree *)
 Definition check_case (c : ccase) : option (string * bout * list (nat * option tobs * option tobs)) :=
+  match c with
+  | CPend r pend ss fins =>
+      if list_eqb Bool.eqb (map (is_finish_p pend r) ss) fins then None
+      else Some ("IsFinish with pending peers differs (model steps shown)", Built ss false false, [])
+  | _ =>
   if negb (bout_eqb (model_out c) (case_out c)) then Some ("plan differs (model plan shown)", model_out c, [])
   else match case_out c with
        | Built ss _ _ =>
@@ -832,7 +838,8 @@ Definition check_case (c : ccase) : option (string * bout * list (nat * option t
            | d => Some ("execution trace differs at step (model, implementation)", BuildErr, d)
            end
        | _ => None
-       end.
+       end
+  end.
 
 Fixpoint mismatches_from (n : nat) (cs : list ccase) :=
   match cs with
@@ -908,7 +915,23 @@ Definition plan_monitor (c : ccase) : option string :=
   | _ => None
   end.
 
+(* an add step whose peer is still pending must not count as finished (the next step could otherwise rely on a peer
+   that has no data yet); nor may any step be finished whose effect is not there *)
+Fixpoint pend_monitor (r : region) (pend : list Z) (ss : list step) (fins : list bool) : option string :=
+  match ss, fins with
+  | s :: sr, f :: fr =>
+      let waits := match s with
+                   | AddPeer _ id | AddLearner _ id | AddLightPeer _ id | AddLightLearner _ id => existsb (Z.eqb id) pend
+                   | _ => false end in
+      if f && waits then Some (sapp "C08:step:finished-while-peer-pending:" (step_name s))
+      else if f && nodup_stores (peers r) && step_ids_nonzero s && negb (spec_done r s)
+      then Some (sapp "C08:step:finished-without-effect:" (step_name s))
+      else pend_monitor r pend sr fr
+  | _, _ => None
+  end.
+
 Definition monitor (c : ccase) : option string :=
+  match c with CPend r pend ss fins => pend_monitor r pend ss fins | _ =>
   match plan_monitor c with
   | Some v => Some v
   | None => match case_out c with
@@ -922,7 +945,7 @@ Definition monitor (c : ccase) : option string :=
                 end
             | _ => None
             end
-  end.
+  end end.
 
 Fixpoint monitor_fails_from (n : nat) (cs : list ccase) : list (nat * string) :=
   match cs with
